@@ -215,7 +215,7 @@ theorem insertRule_valid (rules : List Rule) (rule : Rule) (index : Option Nat) 
             intro h0
             apply headFree_of_not_head0
             simpa [h0] using hc
-    | variables =>
+    | ns =>
       simp only at h
       cases inOrder with
       | true =>
@@ -263,6 +263,54 @@ theorem insertRule_valid (rules : List Rule) (rule : Rule) (index : Option Nat) 
             apply headFree_of_drop0_any rules (fun r => r.isCharset || r == .imp) (by intro e; rfl)
             simp only [h0, List.drop_zero] at hc
             simpa using hc
+    | variables =>
+      simp only at h
+      cases inOrder with
+      | true =>
+        simp only [if_true] at h
+        split at h
+        · rename_i k hk
+          simp only [Except.ok.injEq] at h; subst h
+          exact valid_insertAt rules k _ hv rfl (fun h0 => by have := afterLast_pos _ _ _ hk; omega)
+        · simp only [Except.ok.injEq] at h; subst h
+          refine valid_insertAt rules _ _ hv rfl ?_
+          intro h0
+          -- the place is 0 only in an empty sheet or when no @charset / @import precedes
+          cases hal : afterLast (fun r => r.isCharset || r == Rule.imp || r == Rule.ns) rules with
+          | some k0 =>
+            exfalso
+            have hk0 := afterLast_pos _ _ _ hal
+            rw [hal] at h0
+            simp only [Option.getD_some] at h0
+            split at h0
+            · rename_i j _
+              have h1 : k0 + j = 0 := h0
+              omega
+            · cases rules with
+              | nil => simp [afterLast] at hal
+              | cons a t => simp at h0
+          | none =>
+            have hall := afterLast_none _ _ hal
+            cases rules with
+            | nil => rfl
+            | cons a t =>
+              have := hall a List.mem_cons_self
+              cases a with
+              | charset e => simp [Rule.isCharset] at this
+              | _ => rfl
+      | false =>
+        simp only [Bool.false_eq_true, if_false] at h
+        split at h
+        · cases h
+        · rename_i hc
+          split at h
+          · cases h
+          · simp only [Except.ok.injEq] at h; subst h
+            refine valid_insertAt rules _ _ hv rfl ?_
+            intro h0
+            apply headFree_of_drop0_any rules (fun r => r.isCharset || r == .imp || r == .ns) (by intro e; rfl)
+            simp only [h0, List.drop_zero] at hc
+            simpa using hc
     | style =>
       simp only at h
       cases inOrder with
@@ -276,7 +324,7 @@ theorem insertRule_valid (rules : List Rule) (rule : Rule) (index : Option Nat) 
           simp only [Except.ok.injEq] at h; subst h
           refine valid_insertAt rules _ _ hv rfl ?_
           intro h0
-          apply headFree_of_drop0_any rules (fun r => r.isCharset || r == .imp || r == .variables) (by intro e; rfl)
+          apply headFree_of_drop0_any rules (fun r => r.isCharset || r == .imp || r == .ns || r == .variables) (by intro e; rfl)
           simp only [h0, List.drop_zero] at hc
           simpa using hc
 
@@ -391,6 +439,13 @@ theorem parseAll_valid : ∀ (src : List Rule) (exp : Nat) (acc rs : List Rule),
       split at h
       · cases h
       · exact ih _ _ _ h (valid_append acc _ hv rfl) (by intro h1; cases h1)
+    | ns =>
+      simp only [parseAll] at h
+      split at h
+      · cases h
+      · split at h
+        · cases h
+        · exact ih _ _ _ h (valid_append acc _ hv rfl) (by intro h1; cases h1)
     | style =>
       simp only [parseAll] at h
       exact ih _ _ _ h (valid_append acc _ hv rfl) (by intro h1; cases h1)
@@ -457,6 +512,7 @@ theorem find_charset_of_valid (rs : List Rule) (hv : Valid rs) :
     | unknown => simp [List.find?, Rule.isCharset, find_noCharset t hv]
     | imp => simp [List.find?, Rule.isCharset, find_noCharset t hv]
     | variables => simp [List.find?, Rule.isCharset, find_noCharset t hv]
+    | ns => simp [List.find?, Rule.isCharset, find_noCharset t hv]
     | style => simp [List.find?, Rule.isCharset, find_noCharset t hv]
 
 end CssVerif.EncSheet
